@@ -225,8 +225,35 @@ func c04Prop(rt *rapid.T, rec *ev.Recorder) {
 				dropped = append(dropped, b)
 			}
 		}
-		if err := A.reorg(pt); err != nil {
-			fatal(rt, "Reorg(%d): %v", pt, err)
+		handled := false
+		if rapid.IntRange(0, 2).Draw(rt, "faultDuringReorg") == 0 {
+			// every row-writing statement of the reorg's own transaction fails in turn (K = 1, 2, ...): either Reorg reports
+			// the failure and nothing has changed (the driver retries: next K), or it returns nil and then the reorg counts
+			// as handled and is judged like any other. The enumeration ends when K exceeds what the reorg writes.
+			inj := newFaultInjector(pathA)
+			for kth := 1; kth <= 60 && !handled; kth++ {
+				pre := dumpTables(pathA, faultTables)
+				inj.armAbort(kth)
+				ferr := A.reorg(pt)
+				inj.disarm()
+				if ferr == nil {
+					handled = true
+					rec.ClassN("reorg_attempts_failed_by_an_injected_fault", kth-1)
+					break
+				}
+				if d := diffDumps(pre, dumpTables(pathA, faultTables)); d != "" {
+					fatal(rt, "Reorg(%d) failed (statement writing row %d: %v) but left part of its work behind:\n%s", pt, kth, ferr, d)
+				}
+			}
+			inj.exec("DROP TABLE vf_cnt")
+			inj.close()
+			key += "F"
+			rec.Class("reorgs_with_fault_enumeration")
+		}
+		if !handled {
+			if err := A.reorg(pt); err != nil {
+				fatal(rt, "Reorg(%d): %v", pt, err)
+			}
 		}
 		buggy.reorg(pt)
 		survivors = kept
